@@ -133,6 +133,10 @@ def embedded_docs(rng, quick):
     out.append(("embedded", b'<?xml version="1.0"?>' + ACTIVESYNC + b"<Sync xmlns='AirSync:'><ConversationId xmlns='Email2:'>!!" + devinf(b"<a></a>") + b"</ConversationId></Sync>"))
     for n in ([1, 2, 5] if quick else [1, 2, 3, 5, 40, 998, 999, 1000, 1001]):
         out.append(("embedded-deep", convcases.deep_embedded_xml(n)))
+    # embedded document delivered through an internal entity: both byte indexes are the position of the reference
+    edt = SYNCML["1.2"][:-1] + b" [<!ENTITY e \"<DevInf xmlns='syncml:devinf'><Man>m</Man></DevInf>\"><!ENTITY f \"<Man>m</Man></DevInf>\">]>"
+    for inner in (b"&e;", b"x&e;y&e;", b"<DevInf xmlns='syncml:devinf'>&f;"):
+        out.append(("embedded", b'<?xml version="1.0"?>' + edt + b"<SyncML><SyncBody><Results><Item><Data>" + inner + b"</Data></Item></Results></SyncBody></SyncML>"))
     # skip-level counting: same-named and differently named elements inside the skipped range
     for n in (1, 3, 17):
         out.append(("embedded", syncml_doc("1.2", wrap(devinf(b"<Ext>" * n + b"<DevInf/>" * n + b"</Ext>" * n)))))
